@@ -22,10 +22,9 @@
   flowing through are `List Val`.  The database is the list of its collections' contents (what
   `find()` returns for each), enough for `$lookup`.
 
-  Values are immutable here.  The Python handlers mutate in place (`$lookup` sets a key on the
-  input documents, `$addFields` with a dotted name writes into the sub-document it shares with
-  its input, `$unwind` writes into a deep copy that keeps internal sharing).  Inside one
-  `$addFields` stage the sharing between `in_doc` and `out_doc` is followed (`afStep`).  What a
+  Values are immutable here.  Some Python handlers mutate in place (`$lookup` sets a key on the
+  input documents, `$unwind` writes into a deep copy that keeps internal sharing; `$addFields`
+  copies every level of a dotted name before it writes, so it never touches its input).  What a
   value model cannot see — one object reachable twice (`$facet` siblings, a sub-document captured
   by an earlier expression) and then mutated — is delimited by the static predicate `aliasRisk`
   (a scope limit; the separation property itself is C16's); the driver answers `unmodelled` there.
@@ -165,23 +164,11 @@ def nestedSet : Fields → List String → Val → Fields
   | g, k :: ks, v =>
     dset k (.doc (nestedSet (match dget k g with | some (.doc h) => h | _ => []) ks v)) g
 
-mutual
-  /-- the value holds a dict somewhere (so a later in-place write could be seen through it) -/
-  def hasDoc : Val → Bool
-    | .doc _ => true
-    | .arr xs => hasDocList xs
-    | _ => false
-  def hasDocList : List Val → Bool
-    | [] => false
-    | x :: xs => hasDoc x || hasDocList xs
-end
-
-/-- per document: `in_doc`, `out_doc`, and whether an earlier field of this stage stored a value
-    that may alias a sub-document of `in_doc` -/
+/-- per document: `in_doc` — read by every expression of the stage and never written: each level
+    of a dotted name is shallow-copied (`copy.copy`) before the write — and `out_doc` -/
 structure AfState where
   inD : Fields
   outD : Fields
-  captured : Bool := false
 
 /-- one `(field, value)` of the stage on one document -/
 def afStep (field : String) (e : Val) (s : AfState) : R AfState :=
@@ -191,29 +178,7 @@ def afStep (field : String) (e : Val) (s : AfState) : R AfState :=
   | .ok (some v) =>
     match splitDots field with
     | [] => unmodelled
-    | [k] => .ok { s with outD := dset k v s.outD, captured := s.captured || hasDoc v }
-    | p :: rest =>
-      let outSub := nestedSet (match dget p s.outD with | some (.doc g) => g | _ => []) rest v
-      match dget p s.inD with
-      | some (.doc g) =>
-        -- `out_doc[p]` IS `in_doc[p]`: the write lands in both (and in whatever else holds that
-        -- sub-document: an earlier computed value, or the value being stored itself)
-        if s.captured || hasDoc v then unmodelled
-        else .ok { inD := dset p (.doc (nestedSet g rest v)) s.inD,
-                   outD := dset p (.doc outSub) s.outD,
-                   captured := s.captured || hasDoc v }
-      | _ => .ok { s with outD := dset p (.doc outSub) s.outD, captured := s.captured || hasDoc v }
-
-def isPrefixOf' : List String → List String → Bool
-  | [], _ => true
-  | _ :: _, [] => false
-  | a :: as, b :: bs => a = b && isPrefixOf' as bs
-
-/-- an earlier field name is a path prefix of a later one (MongoDB rejects such specifications;
-    the code would walk through a value computed by this very stage) -/
-def prefixConflict : List (List String) → Bool
-  | [] => false
-  | p :: rest => rest.any (fun q => isPrefixOf' p q) || prefixConflict rest
+    | parts => .ok { s with outD := nestedSet s.outD parts v }
 
 def afInit : Val → R AfState
   | .doc fs => .ok { inD := fs, outD := fs }
@@ -229,14 +194,12 @@ def afFields : Fields → List AfState → R (List AfState)
 def addFieldsStage : Val → List Val → R (List Val)
   | .doc [], _ => .error .opFail
   | .doc fs, docs =>
-    if prefixConflict (fs.map (fun kv => splitDots kv.1)) then unmodelled
-    else
-      match mapR afInit docs with
+    match mapR afInit docs with
+    | .error e => .error e
+    | .ok st =>
+      match afFields fs st with
       | .error e => .error e
-      | .ok st =>
-        match afFields fs st with
-        | .error e => .error e
-        | .ok st' => .ok (st'.map (fun s => .doc s.outD))
+      | .ok st' => .ok (st'.map (fun s => .doc s.outD))
   | v, _ => if v.truthy then .error .attrErr else .error .opFail
 
 /-! ### `$unwind` (aggregate.py:1379-1420) -/
@@ -890,11 +853,6 @@ def aggregate (db : Db) (coll : String) (pipeline : Val) : R (List Val) :=
 
 /-! ### scope: where in-place mutation could be observed through a second reference -/
 
-/-- field names of an `$addFields`/`$set` operand that contain a dot -/
-def hasDottedKey : Val → Bool
-  | .doc fs => fs.any (fun kv => kv.1.toList.contains '.')
-  | _ => false
-
 /-- the `$unwind` path has a dot (the write goes below the top level of the deep copy) -/
 def unwindDotted : Val → Bool
   | .str s => s.toList.contains '.'
@@ -927,7 +885,7 @@ mutual
     | [] => (false, shared)
     | (op, opts) :: rest =>
       let here : Bool :=
-        ((op = "$addFields" || op = "$set") && hasDottedKey opts && (shared || inFacet)) ||
+        -- (`$addFields` / `$set` with a dotted name copy each level before writing: no risk)
         -- `$unwind` stores the ORIGINAL item under the path of the deep copy; a dotted
         -- `includeArrayIndex` below it then writes into the input document's own sub-document
         (op = "$unwind" && unwindDotted opts && (shared || inFacet)) ||
